@@ -164,8 +164,9 @@ impl CompressionCodecState {
 						.map_err(|deflate_error| error("Bzip2", &deflate_error))?;
 					let written = compress.total_in() as usize - before_in;
 					match status {
-						bzip2::Status::MemNeeded => {
-							// There may be more to write.
+						bzip2::Status::MemNeeded | bzip2::Status::FinishOk => {
+							// There is more to write (`FinishOk` is what bzip2 answers to
+							// `Action::Finish` as long as the stream is not complete).
 							// That may be true even if the input is empty, because bzip2
 							// may have buffered some input.
 							input = &input[written..];
@@ -177,7 +178,7 @@ impl CompressionCodecState {
 								&format_args!("got unexpected status from bzip2: {status:?}"),
 							));
 						}
-						bzip2::Status::FinishOk | bzip2::Status::StreamEnd => {
+						bzip2::Status::StreamEnd => {
 							assert_eq!(input.len(), written);
 							*len = compress.total_out() as usize;
 							break;
@@ -217,14 +218,15 @@ impl CompressionCodecState {
 						.map_err(|deflate_error| error("Xz", &deflate_error))?;
 					let written = compress.total_in() as usize - before_in;
 					match status {
-						xz2::stream::Status::MemNeeded => {
-							// There may be more to write.
-							// That may be true even if the input is empty, because bzip2
+						xz2::stream::Status::MemNeeded | xz2::stream::Status::Ok => {
+							// There is more to write (`Ok` is what liblzma answers as long as it
+							// makes progress but the stream is not complete).
+							// That may be true even if the input is empty, because xz
 							// may have buffered some input.
 							input = &input[written..];
 							self.output_vec.resize(self.output_vec.len() * 2, 0);
 						}
-						xz2::stream::Status::Ok | xz2::stream::Status::GetCheck => {
+						xz2::stream::Status::GetCheck => {
 							return Err(error(
 								"Xz",
 								&format_args!("got unexpected status from xz2: {status:?}"),
